@@ -281,6 +281,7 @@ class PitScenario:
             self.dbg = debug_logging()
             self.dbg.__enter__()
         self.face = UdpHFace(self.trace) if self.b.spec.get('udp') else HFace(self.trace)
+        self.delivered_names, self.bad_vnames = [], []
         self.app = self.fe.make_app(self.face)
         self.main = self.loop.create_task(self.app.main_loop())
         self.loop.drain()
@@ -308,7 +309,13 @@ class PitScenario:
         trace, loop = self.trace, self.loop
         value = verdict_value(it['verdict'], self.fe.name)
 
+        def seen(name):
+            # the validator judges the packet that arrived: it is given that packet's own name
+            if [bytes(c).hex() for c in name] not in self.delivered_names:
+                self.bad_vnames.append((i, '/'.join(bytes(c)[2:].decode('latin1') for c in name)))
+
         async def v2_validator(name, sig, ctx):
+            seen(name)
             trace.append(('vstart', i, loop.us))
             if it['vlat']:
                 await asyncio.sleep(it['vlat'] / 1000)
@@ -316,6 +323,7 @@ class PitScenario:
             return value
 
         async def legacy_validator(name, sig):
+            seen(name)
             trace.append(('vstart', i, loop.us))
             if it['vlat']:
                 await asyncio.sleep(it['vlat'] / 1000)
@@ -384,13 +392,16 @@ class PitScenario:
             self.main.cancel()          # the task running main_loop is cancelled (Ctrl+C): face down, everything pending is cancelled
         else:
             if self.face.running:
+                rp = self.b.ref_packets.get(ev)
+                if rp is not None and rp['kind'] == 'data':
+                    self.delivered_names.append(rp['comps'])
                 self.face.deliver(self.b.packets[ev], label=ev)
             else:
                 self.trace.append(('skipped', ev))
 
     def finish(self):
         loop = self.loop
-        obs = {'phase1_pit': trie_size(self.fe.pit(self.app)), 'running': self.face.running}
+        obs = {'phase1_pit': trie_size(self.fe.pit(self.app)), 'running': self.face.running, 'bad_vnames': list(self.bad_vnames)}
         obs['sent1'] = len(self.face.sent)
         obs['expressed1'] = self.expressed_ok
         # behavioural witness that nothing remains pending: re-deliver every packet, nothing may change
@@ -465,6 +476,9 @@ def judge(sname, fe_name, run):
         interests[i] = it
         interests[100 + i] = it
     acc, _first = acceptable_outcomes(run.trace, interests, b.ref_packets, legacy=(fe_name == 'legacy'))
+    for i, nm in obs.get('bad_vnames', ()):
+        viol.append((f'C03|{fe_name}|validator-given-another-name', f'the validator of Interest {i} of {sname} was asked about the name /{nm}, which no '
+                                                                   f'delivered Data packet carries'))
     callers = {int(e[1][1:]) for e in run.trace if e[0] == 'fire' and isinstance(e[1], str)
                and e[1][0] == 'x' and e[1][1:].isdigit()}
     callers |= {int(k) for k in obs['outcomes']}
